@@ -226,6 +226,98 @@ def index_cases(rng, quick):
     return out
 
 
+# ---- escape sequences in string literals: a backslash followed by every byte value, the literal ending 0-6 characters
+# after it (hex digits, as a \uXXXX / \xXX reader would consume them, and non-digits), in every position a literal can take
+ESC_CTX = [
+    "BEGIN { print \"id: @@\" }",
+    "BEGIN { x = 'v@@'\n print x }",
+    "\"@@\" { print }\nEND { print \"end\" }",
+    "BEGIN { o = {\"k@@\": 1}\n print o }",
+    "BEGIN { printf(\"@@\\n\") }",
+    "BEGIN { print match (\"a\") { \"@@\" => 1, _ => 2 } }",
+    "{ print $[\"@@\"] }",
+    "function f(s) { return s }\nEND { print f(\"@@\") }",
+    "BEGIN { print \"a\" ~ \"@@\" }",
+    "BEGIN { print [\"@@\"].length(), \"@@\".length() }",
+    "SELECTOR",
+]
+ESC_HEX_TAILS = ["", "1", "1f", "1f6", "1F60", "1f600", "00e9zz"]
+ESC_OTHER_TAILS = ["g", "zzzz", "{1f600}", "+123", "-1", " 12", "\\", "\\n", "é", "12\udcff"]
+
+
+def escape_cases(rng, quick):
+    out = []
+
+    def add(ch, tail):
+        lit = "\\" + ch + tail
+        ctx = rng.choice(ESC_CTX)
+        if ctx == "SELECTOR":
+            out.append(("escape", "{ print }", ["[1]"], ["\"a" + lit + "\""]))
+        else:
+            out.append(("escape", ctx.replace("@@", lit), ["[1, \"a\"]"], []))
+
+    every = [bytes([b]).decode("utf-8", "surrogateescape") for b in range(256)]
+    alnum = [c for c in every if c.isascii() and c.isalnum()]
+    rest = [c for c in every if c not in alnum]
+    # every letter and digit, the literal truncated at every length after it
+    for ch in alnum:
+        for tail in ESC_HEX_TAILS:
+            add(ch, tail)
+        for tail in (rng.sample(ESC_OTHER_TAILS, 1 if quick else len(ESC_OTHER_TAILS))):
+            add(ch, tail)
+            add(ch, tail + " end")
+    for ch in rest:
+        for tail in (rng.sample(ESC_HEX_TAILS + ESC_OTHER_TAILS, 1) if quick else ESC_HEX_TAILS + ESC_OTHER_TAILS):
+            add(ch, tail)
+    if not quick:
+        for ch in every:
+            for tail in ESC_HEX_TAILS + ESC_OTHER_TAILS:
+                for _ in range(2):
+                    add(ch, tail)
+    return out
+
+
+# ---- diagnostics of the tool: a syntax / runtime error located after text that is wider or narrower in bytes than in
+# characters (2-, 3-, 4-byte characters, combining marks, tabs, bytes that are not UTF-8), on the error's line before and after
+# the error, on other lines, in selectors.  All of them go through the real binary (extra()): the error printer must not crash.
+DIAG_WIDE = ["é", "日", "😀", "\t", "e\u0301", "\udcff", "\u200b", "a"]
+DIAG_COUNTS = [1, 3, 8, 20, 60, 200]
+DIAG_PROGS = [
+    ("{ print \"@@\" / $.n }", ["[{\"n\": 0}]"]),
+    ("BEGIN { print \"@@\", 1 / 0 }", []),
+    ("BEGIN { print \"@@\", \"\\q\" }", []),
+    ("BEGIN { x = \"@@\"; x.y.z = 1 }", []),
+    ("BEGIN { print \"@@\" )", []),
+    ("BEGIN { print \"@@\" +* 2 }", []),
+    ("BEGIN { print \"@@\" } }", []),
+    ("BEGIN { print \"@@", []),
+    ("BEGIN { print '@@', 1 / 0, \"trailing text after the position of the error, on the same line\" }", []),
+    ("BEGIN {\n print 1\n print \"@@\", 1 / 0\n}", []),
+    ("# @@\nBEGIN { print 1 / 0 }", []),
+    ("BEGIN { print 1 / 0 } # @@", []),
+    ("BEGIN { print 1 / 0, \"@@\" }", []),
+    ("BEGIN { print 1 ) } # @@", []),
+    ("function f(s) { return s / 0 }\n{ print \"@@\", f(\"@@\") }", ["[1]"]),
+    ("{ print /@@/ ~ 1, $.a.b.c = 2 }", ["[1]"]),
+    ("@@ BEGIN { print 1 }", []),
+    ("SELECTOR \"@@\" / 0", ["[1]"]),
+    ("SELECTOR \"@@\" )", ["[1]"]),
+]
+
+
+def diag_cases(rng, quick):
+    out = []
+    for tmpl, inputs in DIAG_PROGS:
+        for w in DIAG_WIDE:
+            for n in (rng.sample(DIAG_COUNTS[:3], 1) + rng.sample(DIAG_COUNTS[3:], 1) if quick else DIAG_COUNTS):
+                text = tmpl.replace("@@", w * n)
+                if text.startswith("SELECTOR "):
+                    out.append(("diag", "{ print }", inputs, [text[9:]]))
+                else:
+                    out.append(("diag", text, inputs, []))
+    return out
+
+
 def planted_programs():
     """The finite family (a): every control statement x wrapper x rule context, every expression form x context."""
     out = []
@@ -366,6 +458,8 @@ class C01(Check):
                 specs.append(("noinput", prog, inputs, list(rng.choice(SELECTOR_SETS[:5]))))
         specs += recursion_cases(rng, quick, call_depth_limit())
         specs += index_cases(rng, quick)
+        specs += escape_cases(rng, quick)
+        specs += diag_cases(rng, quick)
         nrand = 300 if quick else 30000
         base = []
         for _ in range(nrand):
@@ -459,6 +553,10 @@ class C01(Check):
         sample += rng.sample(rest, max(0, min(len(rest), n - len(forced[:n // 3]))))
         modes = ["plain", "plain", "o-", "ofile", "argprog", "stdin"]
         jobs = [(c, rng.choice(modes)) for c in sample]
+        # the error printer: every diagnostics case, program given as file and as argument
+        diag = [c for c in pool if "diag" in c.tags and c not in chosen]
+        jobs += [(c, rng.choice(["plain", "argprog"])) for c in diag]
+        stats["cli_diag_runs"] = len(diag)
         with Scratch() as sc:
             def one(job):
                 c, mode = job
@@ -486,6 +584,10 @@ class C01(Check):
                     tail += [sc.file(t, ".json") for t in inputs]
                 res = run_cli(args + tail, stdin, timeout=10)
                 why = res.why_bad()
+                if not why and not res.timed_out and "diag" in c.tags and res.rc == 0:
+                    lib = RunRes(impl.get(c.id, [])).outcome
+                    if lib in ("syntax", "runtime"):
+                        why = "exit status 0 and no diagnostic although the run ends in a %s error" % lib
                 if why:
                     meta = dict(c.meta, cli_args=[a.decode("utf-8", "replace") if isinstance(a, bytes) else a for a in args + tail], mode=mode,
                                 stderr=res.err[:600].decode("utf-8", "replace"), exit_status=res.rc)
